@@ -109,7 +109,7 @@ def make(kind, **params):
     return {'oversize': Oversize, 'cbldm': Cbldm, 'numitems': NumItems}[kind](**params)
 
 
-def job(kind, **params):
+def job(kind, mandatory=True, **params):
     tag = ' '.join('%s=%s' % (a, b) for a, b in sorted(params.items()))
     return {'id': '%s %s' % (kind, tag), 'factory': 'harness.c19:make', 'params': dict(kind=kind, **params)}
 
@@ -117,7 +117,7 @@ def job(kind, **params):
 def jobs(tier):
     J = []
     for alg in ('ff', 'ffd', 'bf', 'bfd'):
-        for n in (1, 2, 3, 4):
+        for n in (1, 2, 3, 4, 5):
             J.append(job('oversize', alg=alg, n=n))
         for pres in ('list', 'dict'):
             J.append(job('oversize', alg=alg, n=3, pres=pres))
